@@ -1397,7 +1397,7 @@ class ktensor:
                     tmp = _column_norm(self.factor_matrices[mode][:, r], normtype)
                     if tmp > 0:
                         self.factor_matrices[mode][:, r] = (
-                            1.0 / tmp * self.factor_matrices[mode][:, r]
+                            self.factor_matrices[mode][:, r] / tmp
                         )
                     self.weights[r] = self.weights[r] * tmp
                 return self
@@ -1412,7 +1412,7 @@ class ktensor:
                 tmp = _column_norm(self.factor_matrices[mode_idx][:, r], normtype)
                 if tmp > 0:
                     self.factor_matrices[mode_idx][:, r] = (
-                        1.0 / tmp * self.factor_matrices[mode_idx][:, r]
+                        self.factor_matrices[mode_idx][:, r] / tmp
                     )
                 self.weights[r] = self.weights[r] * tmp
 
